@@ -269,6 +269,8 @@ def remove_genes(
         associated_groups = model.get_associated_groups(gene)
         for group in associated_groups:
             group.remove_members(gene)
+            if context:
+                context(partial(group.add_members, [gene]))
     model.remove_reactions(target_reactions)
     for rxn in rxns_to_revisit:
         rxn.update_genes_from_gpr()
